@@ -139,6 +139,22 @@ TCrash ==
               <<"C09_readable", Ev.trk_ok /\ Ev.hsh_ok>>,
               <<"C09_hash_only_if_accepted", \A t \in T : Ev.after.hsh[t] # hsh[t] => gp.mhsh[t] # hsh[t]>> })
 
+(* killed inside a state-file write: each file must be readable and hold its old or its new content *)
+TCrashWrite ==
+  /\ Ev.act = "CrashWrite"
+  /\ IF gp.pc # "run" \/ gp.todo # {} THEN Stuck("C02_set")
+     ELSE /\ gp' = IdleGp /\ dr' = FALSE
+          /\ trk' = [t \in T |-> Ev.after.trk[t]]
+          /\ hsh' = [t \in T |-> Ev.after.hsh[t]]
+          /\ Disturb /\ Bump("faults")
+          /\ UNCHANGED <<w, specv, fs, clock, jobs, useHash>>
+          /\ Log("CrashWrite", [file |-> Ev.file])
+          /\ Judge({
+              <<"C09_readable", Ev.trk_ok /\ Ev.hsh_ok>>,
+              <<"C09_write_atomic", /\ EqT(Ev.after.trk, gp.mtrk)
+                                    /\ EqT(Ev.after.hsh, hsh) \/ EqT(Ev.after.hsh, gp.mhsh)>>,
+              <<"C09_tracked", EqT(Ev.after.trk, gp.mtrk), Ev.trk_ok>> })
+
 TQueryFail ==
   /\ Ev.act = "QueryFail" /\ QueryFail(S(Ev.sel)) /\ dr' = dr
   /\ Judge({
@@ -214,14 +230,14 @@ TEnv ==
 TSched ==
   /\ Ev.act \in {"JobStart", "JobEnd", "Purge"} /\ dr' = dr
   /\ IF Ev.j \notin JobIds THEN Stuck("C00_schedule_inapplicable")
-     ELSE \/ Ev.act = "JobStart" /\ IF CanStart(Ev.j) THEN JobStart(Ev.j) /\ Judge({}) ELSE Stuck("C07_no_early_start")
+     ELSE \/ Ev.act = "JobStart" /\ IF CanStart(Ev.j) THEN JobStart(Ev.j) /\ Judge({}) ELSE Stuck("C00_schedule_inapplicable")
           \/ Ev.act = "JobEnd" /\ IF jobs[Ev.j].st = "R" THEN JobEnd(Ev.j, Ev.ok) /\ Judge({}) ELSE Stuck("C00_schedule_inapplicable")
           \/ Ev.act = "Purge" /\ IF Finished(Ev.j) /\ ~jobs[Ev.j].gone THEN Purge(Ev.j) /\ Judge({}) ELSE Stuck("C00_schedule_inapplicable")
 
 TraceNext ==
   /\ bad = {} /\ l <= Len(Events)
   /\ tid' = tid
-  /\ \/ TStatus \/ TDryRun \/ TRunBegin \/ TRunSubmit \/ TRunEnd \/ TRunReject \/ TCrash \/ TQueryFail
+  /\ \/ TStatus \/ TDryRun \/ TRunBegin \/ TRunSubmit \/ TRunEnd \/ TRunReject \/ TCrash \/ TCrashWrite \/ TQueryFail
      \/ TTouch \/ TClean \/ TCancel \/ TEnv \/ TSched
 
 TraceSpec == TraceInit /\ [][TraceNext]_tvars
